@@ -410,6 +410,81 @@ def gen_mk(rng, sources, consts):
     return dict(form=form, kind=kind, src=src, col=col, C=rng.choice(consts[src]))
 
 
+# ---- nested data-row fields (wave 5): dotted columns `menu.items`, `menu.keys`, `menu.title`, `extra.note` -------------------------------
+# A data sheet with dotted headers gives every row NESTED objects (`menu`, `extra`); two of the field names are names of dict methods.
+# The property: the instance of a bulk row equals the instance of the row naming the data row, whatever the template does with the nested
+# object: read a field (also one named like a dict method), walk over it, print it, reach into it through the `eval` filter.
+# form -> (rows of the template from a row-id maker, reference texts from the data row | ANY where the property text gives no value:
+# those are compared bulk vs row-by-row vs alone vs permuted only)
+class _Any:
+    """a text the reference does not speak about (e.g. how a nested object prints)"""
+    def __eq__(self, other):
+        return isinstance(other, str)
+
+    def __ne__(self, other):
+        return not isinstance(other, str)
+
+    def __repr__(self):
+        return "<any text>"
+
+    __hash__ = None
+
+
+ANY = _Any()
+NEST_COLS = ["menu.items", "menu.keys", "menu.title", "extra.note"]
+
+
+def _msg(text):
+    return [tpl_row(type="send_message", message_text=text)]
+
+
+NEST_FORMS = {
+    "fields": (lambda: _msg("NF:{{ menu.title }}/{{ menu.items }}/{{ menu.keys }}/{{ extra.note }}."),
+               lambda r: ["NF:%s/%s/%s/%s." % (r["menu"]["title"], r["menu"]["items"], r["menu"]["keys"], r["extra"]["note"])]),
+    "pairs": (lambda: _msg("NP:{% for name, value in menu %}[{{name}}={{value}}]{% endfor %}."),
+              lambda r: ["NP:" + "".join("[%s=%s]" % kv for kv in r["menu"].items()) + "."]),
+    "print": (lambda: _msg("NR:{{ menu }}|{{ extra }}."), lambda r: [ANY]),
+    "print-native": (lambda: _msg("{@ 'NRN:' ~ extra @}"), lambda r: [ANY]),
+    "eval": (lambda: _msg("NE:{{ 'menu.title'|eval }}/{{ 'extra.note'|eval }}."), lambda r: ["NE:%s/%s." % (r["menu"]["title"], r["extra"]["note"])]),
+    "eval-method-name": (lambda: _msg("NEM:{{ 'menu.items'|eval }}/{{ 'menu.keys'|eval }}."), lambda r: ["NEM:%s/%s." % (r["menu"]["items"], r["menu"]["keys"])]),
+    "subscript": (lambda: _msg("NS:{{ menu['title'] }}."), lambda r: ["NS:%s." % r["menu"]["title"]]),
+    "attr-filter": (lambda: _msg("NA:{{ menu|attr('keys') }}/{{ extra|attr('note') }}."), lambda r: ["NA:%s/%s." % (r["menu"]["keys"], r["extra"]["note"])]),
+    "is-mapping": (lambda: _msg("NM:{{ 'M' if menu is mapping else 'O' }}."), lambda r: [ANY]),
+    "walk": (lambda: _msg("NW:{% for k in menu %}{{ k|length }},{% endfor %}."), lambda r: [ANY]),
+    "set": (lambda: _msg("NT:{% set m = menu %}{{ m.title }}-{{ m.keys }}."), lambda r: ["NT:%s-%s." % (r["menu"]["title"], r["menu"]["keys"])]),
+    "native-list": (lambda: [tpl_row(type="begin_for", loop_variable="nv", message_text="{@ [menu.items, menu.keys, extra.note] @}"),
+                             tpl_row(type="send_message", message_text="NL:{{nv}}."),
+                             tpl_row(type="end_for")],
+                    lambda r: ["NL:%s." % x for x in (r["menu"]["items"], r["menu"]["keys"], r["extra"]["note"])]),
+    "native-cond": (lambda: [tpl_row(type="send_message", include_if="{@ menu.items != extra.note @}", message_text="NC:{{ menu.keys|upper }}.")],
+                    lambda r: ["NC:%s." % r["menu"]["keys"].upper()] if r["menu"]["items"] != r["extra"]["note"] else []),
+}
+
+
+def gen_nested(rng):
+    w = lambda: rng.choice(WORDS) + str(rng.randrange(10))
+    return dict(menu=dict(items=w(), keys=w(), title=w()), extra=dict(note=w()))
+
+
+def nested_env(row):
+    return {c: row[c.split(".")[0]][c.split(".")[1]] for c in NEST_COLS}
+
+
+def render_blkn(case):
+    """a block that reads the nested fields of its OWN data row (insert_as_block with data_sheet / data_row_id)"""
+    rows = [TPL_HEAD, tpl_row(type="send_message", message_text="BN:{{ menu.title }}:" + defined_probe(["val", "bid"]) + ".")]
+    for f in case["blkn"]:
+        rows += NEST_FORMS[f][0]()
+    return rows
+
+
+def blkn_texts(case, brow):
+    out = ["BN:%s:UU." % brow["menu"]["title"]]
+    for f in case["blkn"]:
+        out += NEST_FORMS[f][1](brow)
+    return out
+
+
 def gen_case(rng, malformed=False):
     """An abstract workbook.  Everything random is drawn here; rendering is deterministic."""
     n_rows = rng.choice([1, 2, 2, 3, 3, 4, 5])
@@ -425,12 +500,18 @@ def gen_case(rng, malformed=False):
                          pairs=[[rng.choice(WORDS) for _ in range(rng.choice([1, 2, 2, 3]))] for _ in range(rng.choice([1, 2, 2, 3]))]))
     bdata = [dict(ID="b1", bval="BV1", bl=[rng.choice(WORDS) for _ in range(rng.choice([1, 2, 3]))]),
              dict(ID="b2", bval="BV2", bl=[rng.choice(WORDS) for _ in range(rng.choice([1, 2, 3]))])]
+    for d in data + bdata:
+        d.update(gen_nested(rng))
+    if n_rows > 1 and rng.random() < 0.5:       # two rows with the same nested field: the constant the markup compares with is hit more than once
+        data[-1]["menu"]["title"] = data[0]["menu"]["title"]
     # literal two-level lists for begin_for cells: a small pool per workbook, so the same cell text turns up in several loops / templates
     lits = [[[rng.choice(WORDS) for _ in range(rng.choice([1, 2, 2, 3]))] for _ in range(rng.choice([1, 2, 3, 3]))] for _ in range(2)]
     lookup = [dict(ID=k, col="C" + k + str(rng.randrange(10))) for k in lk_ids]
 
     consts = {"val": sorted({d["val"] for d in data}), "flag": ["yes", "no"], "key": list(lk_ids), "ID": list(ids), "it": list(lk_ids),
               "b1": ["A1", "A2", "yes", "B1", "no", "bd"] + sorted({d["val"] for d in data}), "bval": ["BV1", "BV2"], "d1": ["A1", "B1", "yes", "no", "bd"]}
+    for c in NEST_COLS:
+        consts[c] = sorted({nested_env(d)[c] for d in data})
 
     # ---- templates -------------------------------------------------------------
     def gen_defs(prefix):
@@ -474,13 +555,14 @@ def gen_case(rng, malformed=False):
             + ["sheet"] * (2 if sheet_args else 0) + (["block", "block"] if has_data and allow_block else [])
         if lst_args or sheet_args or has_data:
             pool += ["al", "al"]
-        sources = (["val", "flag", "key", "ID"] if has_data else []) + plain_args
+        sources = (["val", "flag", "key", "ID"] + NEST_COLS if has_data else []) + plain_args
         if sources:
             pool += ["mk"] * 5
         if has_data:
             pool += ["field", "field", "loop", "loop", "cond", "cond", "mut", "read", "startflow", "mkloop", "mkloop"]
+            pool += ["nest"] * 5
             if allow_block:
-                pool += ["block", "block", "blocknodata", "mkblock", "mkblock", "mkblock"]
+                pool += ["block", "block", "blocknodata", "mkblock", "mkblock", "mkblock", "nestblock", "nestblock"]
         if any(t == "sheet" for _, t, _ in defs):
             pool += ["sheet", "sheet", "readlk"]
         for _ in range(rng.choice([2, 3, 4, 5, 6])):
@@ -496,6 +578,8 @@ def gen_case(rng, malformed=False):
                 p = dict(which=rng.choice([n for n, t, _ in defs if t == "sheet"]), k=rng.choice(lk_ids), rid=rng.choice(ids))
             if f == "startflow":
                 p = dict(target=rng.randrange(1000))
+            if f == "nest":
+                p = dict(form=rng.choice(sorted(NEST_FORMS)), inloop=rng.random() < 0.25)
             if f == "mk":
                 p = gen_mk(rng, sources, consts)
             if f == "al":
@@ -558,7 +642,8 @@ def gen_case(rng, malformed=False):
             q["col"] = "message_text"
     blkm = dict(ops_g=[o for o in (rng.choice(list(AL_OPS)) for _ in range(rng.choice([1, 2]))) if AL_OPS[o][2]] or ["append"],
                 ops_b=[o for o in (rng.choice(list(AL_OPS)) for _ in range(rng.choice([1, 2]))) if AL_OPS[o][2]] or ["set-append"])
-    case = dict(ids=ids, data=data, bdata=bdata, lookup=lookup, templates=templates, creates=creates,
+    blkn = rng.sample(sorted(NEST_FORMS), rng.choice([1, 2, 3]))
+    case = dict(ids=ids, data=data, bdata=bdata, lookup=lookup, templates=templates, creates=creates, blkn=blkn,
                 blk_defs=[("b1", "", "bd")], malformed=None, blk2=blk2, lits=lits, lst_names=sorted(lst_names), blkm=blkm,
                 index_order=rng.choice(["defs-first", "creates-first"]))
     if malformed:
@@ -670,6 +755,14 @@ def render_template(case, name):
             rows.append(tpl_row(type="end_for"))
         elif f == "mkblock":
             rows.append(mkblock_row(p))
+        elif f == "nest":
+            if p["inloop"]:
+                rows.append(tpl_row(type="begin_for", loop_variable="it", message_text="{@items@}"))
+            rows += NEST_FORMS[p["form"]][0]()
+            if p["inloop"]:
+                rows.append(tpl_row(type="end_for"))
+        elif f == "nestblock":
+            rows.append(tpl_row(type="insert_as_block", message_text="blkn", data_sheet="bdata", data_row_id="{{bid}}"))
         elif f == "al":
             rows += al_rows(case, p)
     if len(rows) == 1:
@@ -888,11 +981,17 @@ def base_sheets(case):
             return ";".join(v) + (";" if len(v) == 1 else "")
         return v
 
+    def field(r, c):
+        for part in c.split(":")[0].split("."):
+            r = r[part]
+        return r
+
     def table(rows, cols):
-        return [cols] + [[cell(r[c.split(":")[0]]) for c in cols] for r in rows]
+        return [cols] + [[cell(field(r, c)) for c in cols] for r in rows]
     sheets = {
-        "data": table(case["data"], ["ID", "val", "items:List[str]", "flag", "bid", "key", "pairs:list"]),
-        "bdata": table(case["bdata"], ["ID", "bval", "bl:List[str]"]),
+        "data": table(case["data"], ["ID", "val", "items:List[str]", "flag", "bid", "key", "pairs:list"] + NEST_COLS),
+        "bdata": table(case["bdata"], ["ID", "bval", "bl:List[str]"] + NEST_COLS),
+        "blkn": render_blkn(case),
         "blkm": render_blkm(case),
         "lookup": table(case["lookup"], ["ID", "col"]),
         "blk": render_blk(),
@@ -910,6 +1009,7 @@ def index_rows(case, create_rows):
     defs.append(["template_definition", "blk2", "", "", defs_cell([("b1", "", "bd")]), "", ""])
     defs.append(["template_definition", "blk3", "", "", defs_cell([("d1", "", "bd")]), "", ""])
     defs.append(["template_definition", "blkm", "", "", defs_cell([("g1", "", "")]), "", ""])
+    defs.append(["template_definition", "blkn", "", "", "", "", ""])
     ds = [["data_sheet", n, "", "", "", "", ""] for n in ("data", "bdata", "lookup")]
     if case["index_order"] == "defs-first":
         return [INDEX_HEAD] + defs + ds + create_rows
@@ -987,10 +1087,15 @@ def expected_texts(case, create, rid):
             out += ["RT:yes.", "RT:no."]
         elif f == "al":
             out += al_texts(case, p, env, row, sheets)
+        elif f == "nest":
+            out += NEST_FORMS[p["form"]][1](row) * (len(row["items"]) if p["inloop"] else 1)
+        elif f == "nestblock":
+            out += blkn_texts(case, next(b for b in case["bdata"] if b["ID"] == row["bid"]))
         elif f in ("mk", "mkloop", "mkblock"):
             menv = {n: env[n] for n, t, _ in defs if t != "sheet" and not isinstance(env[n], list)}
             if row is not None:
                 menv.update(val=row["val"], flag=row["flag"], key=row["key"], ID=row["ID"])
+                menv.update(nested_env(row))
             if f == "mk":
                 out += mk_texts(p, menv)
             elif f == "mkblock":
@@ -1925,11 +2030,14 @@ def run(ctx):
 
     # ---------------- (b) differential
     # a case costs ~0.85 s since wave 3 (markup features, nested blocks, the history on one parser), ~1.1 s since wave 4 (mutating features:
-    # more loops per template): 1400 keeps the thorough tier under 30 min, 95 the quick tier under 2
-    n_cases = (1400 if thorough else 95) * ctx.scale
+    # more loops per template), ~1.2 s since wave 5 (nested data-row fields: more rows per template; 15 workbooks traded for them): 1400 keeps the thorough
+    # tier under 30 min, 80 the quick tier where it was
+    n_cases = (1400 if thorough else 80) * ctx.scale
     dist = {"valid": 0, "malformed": {}, "A_ok": 0, "A_err": 0, "instances": 0, "features": {}, "data_rows": {},
             "markup_kind": {}, "markup_column": {}, "markup_form": {},
             "histories_on_one_parser": {"run": 0, "calls": {}, "lengths": {}, "with_a_repeated_call": 0, "registry_changed_by_calls": 0},
+            "nested_fields": {"form": {}, "form_inside_a_loop": 0, "block_with_nested_data_row": 0, "block_form": {}, "markup_over_nested_field": {},
+                              "by_create_mode": {}, "workbooks": 0},
             "mutating_route": {}, "mutating_op": {}, "mutating_unguarded_pop": 0, "same_literal_cell_in_two_loops": 0,
             "identity_watch": {"workbooks": 0, "instances_watched": 0, "workbooks_with_a_shared_mutable_object": 0, "shared_by_route": {}}}
     samples = []
@@ -1949,14 +2057,36 @@ def run(ctx):
         dist["instances"] += rec.get("instances", 0)
         dist["data_rows"][len(case["ids"])] = dist["data_rows"].get(len(case["ids"]), 0) + 1
         mks = list(case["blk2"]["feats"]) + list(case["blk2"]["blk3"])
-        for tp in case["templates"].values():
-            for f, p_ in tp["feats"]:
+        nf = dist["nested_fields"]
+        for tn_, tp in case["templates"].items():
+            uses_nested = False
+            for f, p_ in tp["feats"] + [("end", None)]:
+                if f == "end":
+                    if uses_nested:
+                        for c_ in case["creates"]:
+                            if c_["template"] == tn_:
+                                nf["by_create_mode"][c_["mode"]] = nf["by_create_mode"].get(c_["mode"], 0) + 1
+                    continue
                 dist["features"][f] = dist["features"].get(f, 0) + 1
                 if f == "al":
                     dist["mutating_route"][p_["route"]] = dist["mutating_route"].get(p_["route"], 0) + 1
                     for o in p_["ops"]:
                         dist["mutating_op"][o] = dist["mutating_op"].get(o, 0) + 1
                     dist["mutating_unguarded_pop"] += 1 if any(o in ("pop", "pop0") for o in p_["ops"]) else 0
+                if f == "nest":
+                    nf["form"][p_["form"]] = nf["form"].get(p_["form"], 0) + 1
+                    nf["form_inside_a_loop"] += 1 if p_["inloop"] else 0
+                    uses_nested = True
+                if f == "nestblock":
+                    nf["block_with_nested_data_row"] += 1
+                    for b_ in case["blkn"]:
+                        nf["block_form"][b_] = nf["block_form"].get(b_, 0) + 1
+                    uses_nested = True
+                if f in ("mk", "mkloop", "mkblock"):
+                    for q_ in ([p_] if f != "mkblock" else [p_["arg"]] + ([p_["row"]] if p_["row"] else [])):
+                        if q_["src"] in NEST_COLS:
+                            nf["markup_over_nested_field"][q_["src"]] = nf["markup_over_nested_field"].get(q_["src"], 0) + 1
+                            uses_nested = True
                 if f in ("mk", "mkloop"):
                     mks.append(p_)
                 elif f == "mkblock":
@@ -1964,6 +2094,8 @@ def run(ctx):
         for q in mks:
             for kk, vv in (("markup_kind", q["kind"]), ("markup_column", q["col"]), ("markup_form", q["form"])):
                 dist[kk][vv] = dist[kk].get(vv, 0) + 1
+        nf["workbooks"] += 1 if any(f in ("nest", "nestblock") or (f in ("mk", "mkloop") and p_["src"] in NEST_COLS)
+                                    for tp in case["templates"].values() for f, p_ in tp["feats"]) else 0
         lit_uses = [p_["lit"] for tp in case["templates"].values() for f, p_ in tp["feats"] if f == "al" and p_["route"] == "lit2" for _ in range(2 if p_["twice"] else 1)]
         dist["same_literal_cell_in_two_loops"] += 1 if len(lit_uses) != len(set(lit_uses)) else 0
         iw = dist["identity_watch"]
@@ -2011,7 +2143,10 @@ def run(ctx):
         "expressions, filters, ternaries, natives, 12% comment / raw / literal controls) over a value that differs between instances "
         "(data field, argument, loop variable) in message_text, choices, condition, include_if, the list of a begin_for, a group name, "
         "the argument and the data row id of an inserted block (generated blocks blk2 -> blk3 with markup of their own), top level and "
-        "inside loops; and every compiled case ends with a history on ONE ContentIndexParser: the sampled instances through "
+        "inside loops; since wave 5 the data sheets have dotted columns (menu.items, menu.keys, menu.title, extra.note: nested objects, two fields named "
+        "like dict methods): the markup features also draw the nested fields as sources, and 13 further forms handle the nested object itself (fields, "
+        "walk name/value pairs, print, eval filter, attr filter, subscript, set, native list / condition), top level, inside loops and in a block with "
+        "a nested data row of its own; and every compiled case ends with a history on ONE ContentIndexParser: the sampled instances through "
         "_parse_flow in a drawn order, one of them repeated, a parse_all_flows pass in between, each compared with the instance "
         "compiled alone by a fresh parser; (a) the Bulk correspondence runs histories of parse_all_flows / get_node_group calls "
         "(permuted rows, sub-lists with repeats, failing calls) through the extracted run_calls and one real parser. non-trivial = distinct "
